@@ -890,7 +890,8 @@ FIXED_EXPRS = [
     "count(//@*)", "count(//@*/@*)", "@*[1]/..", "//*/@*[1]", "/b:bt | //.//a:z | ./descendant::a:c/a:y", "/descendant-or-self::*//a:np/a:z[true()]",
     "count(//*/*)", "count(//*//*)", "/descendant::*//a:k", "/a:c/a:l1[a:k=../a:ll]", "false() >= /a:c/a:ln", "true() <= /a:c/a:l1/a:v",
     "substring('12345', 1, 10000000000)", "substring('12345', - 10000000000, 20000000000)", "substring(0.1, /a:zz)", "ceiling(100000000000000000000)",
-    "/a:c/a:l1[a:k=/a:c/a:zz]", "/a:c/a:l1[a:k=/a:zz]", "/a:c/a:l1[a:k='']", "/a:c/a:l1[a:k=a:ca]", "/a:c/a:l1[a:k=a:cb]", "/a:c/a:l1[a:k=a:ca | a:cb]",
+    "/a:c/a:l1[a:k=/a:c/a:zz]", "/a:c/a:l1[a:k=/a:zz]", "/a:c/a:lu[a:k=/a:c/b:bc/b:s]", "/a:c/a:lu[a:k=string(/a:c/b:bc/b:s)]", "/a:c/a:lu[a:k=/a:c/a:n]",
+    "/a:c/a:l2[a:k1='5'][a:k2=/a:c/b:bc/b:s]", "/a:c/a:l2[a:k1=/a:c/a:n][a:k2=/a:c/a:n]", "/a:c/a:l1[a:k='']", "/a:c/a:l1[a:k=a:ca]", "/a:c/a:l1[a:k=a:cb]", "/a:c/a:l1[a:k=a:ca | a:cb]",
     "/a:top/a:tc/a:e[a:k=../a:sel]", "/a:top/a:tc/a:e[a:k=../../a:id]", "//a:e[a:k=../a:sel]", "/a:top/a:tc/a:e[a:k=/a:tl]", "/a:top/a:tc/a:e[a:k='x']",
     "/a:c/a:l1[a:k=current()/../a:s]", "/a:c/a:l1[a:k=/a:c/a:s]", "/a:c/a:l1[a:k=/a:c/a:ll]", "/a:c/a:l1[a:k=/a:c/a:ll[3]]", "/a:c/a:l1[a:k=string(/a:c/a:zz)]",
     "/a:c/s", "/a:c/bx", "/a:c/descendant::s", "/tl", "/c/s", "/a:c/l1/k", "/a:c/a:l1/v", "//s", "//v", "/a:c/b:bc/s", "/c/l1[k='a']",
@@ -1136,13 +1137,94 @@ def fixed_switches():
     return _FIXED_SWITCHES
 
 
+FASTPATH_TAGS = ("xpath-fastpath-context-dependent-rhs", "xpath-fastpath-nodeset-rhs-as-string")
+_FASTPATH_OPEN = None
+
+
+def fastpath_open():
+    """the listed defects of the key-predicate hash lookup that the tree under test still shows: the replay of the
+    known finding does NOT answer what the reference semantics expects. Only those are used to explain a result that
+    neither the recommendation nor the as-coded flags give (the lookup needs the schema and is not part of the model);
+    once the lookup is repaired every such result is a violation again."""
+    global _FASTPATH_OPEN
+    if _FASTPATH_OPEN is not None:
+        return _FASTPATH_OPEN
+    import json
+    path = os.path.join(vlib.VERIF, "known_findings.d", "xpath.json")
+    ents = [k for k in json.load(open(path)) if k.get("status") == "known" and k.get("tag") in FASTPATH_TAGS and "replay" in k]
+    exe = vlib.build_driver("t_xpath", "rel")
+    outs, _ = vlib.run_cases(exe, [k["replay"]["line"] for k in ents], timeout=120)
+    op = set()
+    for k, o in zip(ents, outs):
+        o = o[:-5] if o.endswith(" A:ok") else o
+        if o != k["witness"]["expected (XPath 1.0 reference semantics)"]:
+            op.add(k["tag"])
+    _FASTPATH_OPEN = op
+    return op
+
+
+IMPLICIT_CTX_FUNCS = ("string", "number", "name", "local-name", "namespace-uri", "normalize-space", "string-length")
+
+
+def uses_ctx(e):
+    """does the expression refer to its context node outside of predicates (which have their own)?"""
+    k = e[0]
+    if k == "ctx":
+        return True
+    if k == "step":
+        return uses_ctx(e[1])
+    if k == "filter":
+        return uses_ctx(e[1])
+    if k in ("or", "and", "union"):
+        return uses_ctx(e[1]) or uses_ctx(e[2])
+    if k in ("cmp", "ar"):
+        return uses_ctx(e[2]) or uses_ctx(e[3])
+    if k == "neg":
+        return uses_ctx(e[1])
+    if k == "fn":
+        if e[1] == "lang" or (not e[2] and e[1] in IMPLICIT_CTX_FUNCS):
+            return True
+        return any(uses_ctx(a) for a in e[2])
+    return False
+
+
+def lookup_values(e, out):
+    """value expressions of the predicates [name=value] / [.=value] that directly follow a name test: what the hash
+    lookup of eval_name_test_try_compile_predicates() evaluates once instead of once per instance"""
+    if not isinstance(e, (tuple, list)):
+        return out
+    if e and e[0] == "step" and e[4][0] == "name" and e[5]:
+        p = e[5][0]
+        if p[0] == "cmp" and p[1] == "=" and p[2][0] == "step" and p[2][1] == ("ctx",) and not p[2][2] and not p[2][5] and \
+                ((p[2][3] == "child" and p[2][4][0] == "name") or (p[2][3] == "self" and p[2][4][0] == "any")):
+            out.append(p[3])
+    for x in e:
+        lookup_values(x, out)
+    return out
+
+
+def fastpath_tag(text):
+    """which listed defect of the hash lookup can explain a deviating answer of this expression"""
+    try:
+        vals = lookup_values(parse(text), [])
+    except Exception:
+        return None
+    op = fastpath_open()
+    vals = [v for v in vals if v[0] not in ("lit", "num")]
+    if any(uses_ctx(v) for v in vals) and FASTPATH_TAGS[0] in op:
+        return FASTPATH_TAGS[0]
+    if any(not uses_ctx(v) for v in vals) and FASTPATH_TAGS[1] in op:
+        return FASTPATH_TAGS[1]
+    return None
+
+
 FIXED_XML = ('<c xmlns="urn:a"><s>hello</s><n>5</n><d>2.50</d><u>12</u><ll>x</ll><ll>y</ll><ll>5.0</ll><ll>5</ll><ln>7</ln><ln>3</ln>'
              '<l1><k>5.0</k><v>1</v><in><x>q</x></in><t>t1</t><t>t2</t></l1><l1><k>b</k><v>2</v></l1>'
              '<l1><k>c</k><v>3</v><w>c</w><in><x>r</x><y>9</y></in><t>u</t></l1><l1><k>1e3</k><in><x>1e3</x></in></l1><l1><k>2</k><v xmlns="urn:b">bv</v></l1>'
              '<l1><k>12</k><in/><ca>12</ca></l1><l1><k>true</k><cb>b</cb></l1><l1><k></k><ca>x</ca></l1><l1><k>q</k><cb>q</cb></l1>'
              '<l2><k1>a</k1><k2>1</k2><v>v1</v></l2><l2><k1>a</k1><k2>2</k2><v>v2</v></l2><l2><k1>5</k1><k2>5</k2></l2>'
              '<lu><k>5</k><v>2.5</v></lu><lu><k>1</k></lu><lu><k>12</k><v>12.0</v></lu><lu><k>3</k><v>0.5</v></lu>'
-             '<s xmlns="urn:b">bs</s><bx xmlns="urn:b">BX</bx><bc xmlns="urn:b"><s>in</s><m>4</m></bc>'
+             '<s xmlns="urn:b">bs</s><bx xmlns="urn:b">BX</bx><bc xmlns="urn:b"><s>+5</s><m>4</m></bc>'
              '</c><tl xmlns="urn:a">atl</tl><top xmlns="urn:a"><id>5</id><val>10</val><tc><sel>x</sel><e><k>x</k></e><e><k>y</k><v>1</v></e></tc></top><top xmlns="urn:a"><id>true</id><val>-3</val><tc><z>Z</z><sel>y</sel><e><k>x</k></e><e><k>y</k></e><e><k></k></e></tc></top>'
              '%s')
 FIXED_TAILS = ['<bt xmlns="urn:b"><q>Q</q></bt>', '<tl xmlns="urn:b">btl</tl>']
@@ -1242,25 +1324,33 @@ class XPathEval(Comp):
                     self.reported.add(tg)
                     return (tg, detail + " [as coded: " + need + "]")
             return (tags[0], detail + " [as coded: " + need + "]")
-        ctx_name = None
-        if "( cmp = ( step ( ctx ) 0 child ( name" in f[6] and int(f[4]) >= 0:
-            nd = parse_dump(f[3])
-            if int(f[4]) < len(nd) and nd[int(f[4])].kind in "lt":
-                ctx_name = hexs(nd[int(f[4])].name)
-        if ctx_name and "( cmp = ( step ( ctx ) 0 child ( name" in f[6] and (" %s )" % ctx_name) in f[6]:
-            # a key predicate whose value selects the (leaf-)list the CONTEXT node of the evaluation is an instance of:
-            # eval_name_test_try_compile_predicate_append() exempts the schema node of the current node from the
-            # multi-instance rule, the value is evaluated once as the string of the first node (not modelled as
-            # coded: needs the schema)
-            return ("xpath-fastpath-context-dependent-rhs", detail)
+        # the hash lookup of key predicates is not part of the model (it needs the schema): while the replay of its
+        # listed defects still reproduces, a deviating answer of an expression with such a predicate is attributed
+        tg = fastpath_tag(expr)
+        if tg:
+            return (tg, detail)
         return (None, detail + " [as-coded model: %s]" % coded[:200])
 
 
 class XPathS2N(Comp):
-    """cast_string_to_number() vs XPathConv.impl_s2n (strtold as coded)"""
+    """cast_string_to_number() vs XPathConv.spec_s2n at 64 bits (the recommendation); an answer that is the one of
+    XPathConv.impl_s2n (strtold as coded) is the known finding xpath-string-to-number, any other one a violation"""
     name = "xps2n"
     driver = "t_xpath"
     slice = "xpath"
+    tag = "xpath-string-to-number"
+    what = "number()"
+
+    def norm(self, line, out):
+        return out.split("|")[0]
+
+    def witness(self, line, model_out, impl_out):
+        parts = model_out.split("|")
+        text = unhex(line.split("\t")[2]).decode("utf-8", "replace")
+        detail = "%s of %r: libyang answers %s, XPath 1.0 (at the precision of the code) gives %s" % (self.what, text, impl_out, parts[0])
+        if len(parts) == 2 and impl_out == parts[1]:
+            return (self.tag, detail + " [as coded]")
+        return (None, detail + " [as-coded model: %s]" % parts[-1])
 
     TOK = ["", " ", "\t", "\n", "\r", "\x0b", "\x0c", "-", "+", "0", "1", "5", "9", "12", ".", "e", "E", "e+", "e-", "x", "0x", "0X", "p",
            "inf", "INF", "Infinity", "infinit", "nan", "NaN", "nan(1)", "a", "f", "00", "007", "1e3", "1.5", ".5", "5.", "--", "e10", "p2",
@@ -1283,10 +1373,25 @@ class XPathS2N(Comp):
 
 
 class XPathN2S(Comp):
-    """lyxp_set_cast(number -> string) vs XPathConv.impl_n2s (value given as decimal text, read by strtold)"""
+    """lyxp_set_cast(number -> string) vs XPathConv.spec_n2s at 64 bits (value given as decimal text, read by strtold);
+    an answer that is the one of XPathConv.impl_n2s (one fraction digit, as coded) is the known finding
+    xpath-number-to-string, any other one a violation"""
     name = "xpn2s"
     driver = "t_xpath"
     slice = "xpath"
+    tag = "xpath-number-to-string"
+    what = "string()"
+
+    def norm(self, line, out):
+        return out.split("|")[0]
+
+    def witness(self, line, model_out, impl_out):
+        parts = model_out.split("|")
+        text = unhex(line.split("\t")[2]).decode("utf-8", "replace")
+        detail = "%s of %r: libyang answers %s, XPath 1.0 (at the precision of the code) gives %s" % (self.what, text, impl_out, parts[0])
+        if len(parts) == 2 and impl_out == parts[1]:
+            return (self.tag, detail + " [as coded]")
+        return (None, detail + " [as-coded model: %s]" % parts[-1])
 
     def gen(self, rng, tier, scale=1.0):
         L = []
@@ -1360,6 +1465,23 @@ class XPathFastPair:
                     fast = path + "[%s:%s=true()]" % (c.mod, k)
                     slow = path + "[%s:%s=true() or false()]" % (c.mod, k)
                     L.append("xp2\t%s\t%s\t%s\t%s\t%s" % (y, x, "bool", hexs(fast), hexs(slow)))
+                # node-set right-hand sides: absolute paths (also selecting nothing or several nodes), paths relative to
+                # the list instance (children, also under a choice; the parent) - "or false()" forces generic evaluation
+                if len(kv) == 1:
+                    vals = ["/a:c/a:zz", "/a:c/a:s", "/a:c/a:ll", "/a:top/a:id", "../a:s", "../a:sel", "../a:ll", "a:ca", "a:cb", "a:ca | a:cb",
+                            "a:v", "a:w", "a:in/a:x", "current()/a:tl", "string(a:ca)", "//a:sel"]
+                    leaves = [m for m in nodes if m.kind in "ft" and all(a.kind == "c" for a in self.chain(m)[:-1])]
+                    if leaves:
+                        m = rng.choice(leaves)
+                        vals.append("/" + "/".join("%s:%s" % (a.mod, a.name) for a in self.chain(m)))
+                    sib = [m for m in n.children if m.kind in "ft" and m.name != k]
+                    if sib:
+                        m = rng.choice(sib)
+                        vals.append("%s:%s" % (m.mod, m.name))
+                    for v in rng.sample(vals, 3):
+                        fast = path + "[%s:%s=%s]" % (c.mod, k, v)
+                        slow = path + "[%s:%s=%s or false()]" % (c.mod, k, v)
+                        L.append("xp2\t%s\t%s\t%s\t%s\t%s" % (y, x, "node", hexs(fast), hexs(slow)))
         return L
 
     @staticmethod
@@ -1380,8 +1502,9 @@ class XPathFastPair:
         if a == b:
             return None
         detail = "hash fast path %r selects %s, generic %r selects %s" % (unhex(f[4]).decode(), a, unhex(f[5]).decode(), b)
-        # (numbers and booleans used to be looked up as strings: fixed in /repo 434e77e)
-        return (None, detail)
+        # (numbers and booleans used to be looked up as strings: fixed in /repo 434e77e); values that depend on the list
+        # instance or select no node: the listed defects of the lookup, while their replays reproduce
+        return (fastpath_tag(unhex(f[4]).decode()) if f[3] == "node" else None, detail)
 
 
 class XPathSan:
